@@ -7,6 +7,7 @@ package main
 import (
 	"math/rand"
 	"sort"
+	"strings"
 )
 
 // effective class of a real object, by table lookups only
@@ -219,6 +220,67 @@ func runLift40(a *args) {
 						mustSet(o, m2, x2)
 						check(o, "pair of Modified metrics")
 					}
+				}
+			}
+		}
+	}
+	// (x) exactly one Threat / Environmental metric defined, at every value, all the others undefined (a shortcut that
+	// looks at SOME of the bytes holding the optional metrics shows here), in 4*K random base contexts; and
+	// (y) re-scoring after re-assignment: an object is scored, then each defined Modified metric is reset to X, one
+	// after the other, and scored again; the expected class is that of a FRESH object built from the values
+	// assigned (not from what the scored object says about itself - a Score() that writes into its receiver
+	// answers the second time for values nobody assigned)
+	if prop == "C04" || prop == "C10" || prop == "C11" || prop == "C09" {
+		optional := []string{}
+		for _, m := range metrics {
+			if tb.allvals[m][0] == "X" {
+				optional = append(optional, m)
+			}
+		}
+		for k := 0; k < 4*K; k++ {
+			o := randomObj()
+			for _, m := range optional {
+				mustSet(o, m, "X")
+			}
+			check(o, "no optional metric defined")
+			for _, m := range optional {
+				for _, x := range tb.allvals[m][1:] {
+					o2 := o.Clone()
+					mustSet(o2, m, x)
+					check(o2, "exactly one optional metric defined")
+				}
+			}
+		}
+	}
+	if prop == "C04" {
+		for k := 0; k < 6*K; k++ {
+			o := randomObj()
+			asg := map[string]string{}
+			for _, m := range metrics {
+				asg[m], _ = o.Get(m)
+			}
+			if _, ok := score(o); !ok {
+				continue
+			}
+			for _, mm := range metrics {
+				if !strings.HasPrefix(mm, "M") || asg[mm] == "X" {
+					continue
+				}
+				if o.Set(mm, "X") != nil {
+					continue
+				}
+				asg[mm] = "X"
+				fresh := versions["4.0"].Zero()
+				for _, m := range metrics {
+					mustSet(fresh, m, asg[m])
+				}
+				want := tb.v[tb.view(tb.classOf(fresh))]
+				got, ok := score(o)
+				col.count("objects re-scored after a Modified metric was reset", 1)
+				if ok && got != float64(want)/10 {
+					col.violate(Violation{Property: prop, Kind: "Score differs from the MacroVector algorithm (object scored before, then a Modified metric reset to X)", Version: "4.0",
+						Input: map[string]interface{}{"values_assigned": fresh.Vector(), "reset": mm}, Expected: float64(want) / 10, Observed: fmtF(got)})
+					break
 				}
 			}
 		}
